@@ -74,9 +74,11 @@ from mc.objdump import dump as odump
 
 ID = 'C11'
 RULE = ('a case is (start state, failing call): start states = every repository state reachable in '
-        '<= depth macro steps (BFS, canonical dedup); failing calls = every batch (ordered selection '
-        'of valid filler productions x position k of the invalid production x rejection reason x '
-        'batch API) and every single operation rejected for a documented reason; the call is made '
+        '<= start_depth macro steps (BFS, canonical dedup; 20 macro steps, see module doc); failing '
+        'calls = every batch (ordered selection without repetition of valid filler productions x '
+        'position k of the invalid production x rejection reason x the 4 batch APIs, from start '
+        'states up to the depth given per API) and every single operation of _single_cases() '
+        '(158 calls rejected for a documented reason, each with its own set-up); the call is made '
         'on a pickled clone of the live FakedWBEMConnection; a case is non-trivial iff the call '
         'raised (only then the oracle has something to compare)')
 ASSUMPTIONS = [
